@@ -96,8 +96,14 @@ func init() {
 			ex := Eval(w)
 			var root *simrt.Inode
 			nextIno := 0
-			if c.Tape.Choose(simrt.StGen, 3, 0) == 1 {
+			switch c.Tape.Choose(simrt.StGen, 4, 0) {
+			case 1:
 				root, nextIno = preplace(c, w, ex, false)
+			case 2:
+				// any subset of files, also only some outputs of a multi-output task
+				// (the state a kill between two renames leaves): whatever the library
+				// does with such tasks, it must do within the slots
+				root, nextIno = preplace(c, w, ex, true)
 			}
 			inc := RunInc(w, c.Tape, root, nextIno, IncOpts{KillAt: -1, Strategy: strategyOf(c.Tape), Trace: c.Trace, OnStep: slotInvariant(w, c)})
 			c.Absorb(inc)
